@@ -4,37 +4,53 @@ import TruthModel.Driver.Sexp
 Driver glue for C10: S-expression scope tree -> `Scope.resolveRibs` -> canonical per-occurrence
 resolution.  Case grammar (shared with harness/src/props/c10.rs):
 
-  (resolve ENV ROOT)
+  (resolve ENV ROOT)      per-occurrence resolution (`Scope.resolveRibs`)
+  (ribs ENV)              `Defs::initial_ribs` as the two stacks `RibStacks::from_iter` builds
   ENV  := (env (langs L..) (funcs L) (scripts L) (reg (L NAME N)..) (ins (L NAME N)..)
-               (enums E..) (enum (E NAME)..) (builtin NAME..))
+               (enums E..) (enum (E NAME)..) (builtin NAME..) [(sigs (L OPCODE COLOR..)..)])
+          `sigs`: the instructions that have a signature, with the enum (or `-`) each parameter
+          expects; when the section is absent, 900 (E1), 901 (E2), 902 (-) and every aliased opcode (-)
+          have one parameter in every language
   ROOT := (file STMT..) | (blk STMT..)
   STMT := (expr E) | (assign E E) | (ret E) | (decl (ID NAME E?)..) | (block STMT..) | (loop STMT..)
-        | (while E STMT..) | (dowhile E STMT..) | (times E STMT..)
+        | (while E STMT..) | (dowhile E STMT..) | (times E STMT..) | (timesc (v ID NAME) E STMT..)
         | (if (E STMT..).. [(else STMT..)])
-        | (func QUAL ID NAME ((ID NAME)..) STMT..) | (const (ID NAME E)..) | (script STMT..)
+        | (func QUAL ID NAME ((ID NAME)..) STMT..) | (funcdecl QUAL ID NAME ((ID NAME)..))
+        | (const (ID NAME E)..) | (script STMT..)
   E    := (v ID NAME) | (q ID ENUM NAME) | (f ID NAME E..) | (add E E) | (ins N COLOR E..) | (lit)
+          (the COLOR of `ins` is informative: the model takes the expected enums from the signatures)
 -/
 namespace TruthModel.Driver.C10
 open TruthModel TruthModel.Scope
 
 def optName (s : Sexp) : Option Name := if s.asAtom == "-" then none else some s.asAtom
 
-/-- identifier uses of an expression in the order `visit_expr` reaches them -/
-partial def usesOf (color : Option Name) (e : Sexp) : List Use :=
+instance : Inhabited Expr := ⟨.group []⟩
+
+mutual
+/-- the expression trees of an expression in the order `visit_expr` reaches them (a literal has none) -/
+partial def exprsOf (e : Sexp) : List Expr :=
   let a := e.args
   match e.head? with
-  | some "v" => [{ id := (a[0]!).asNat, ns := .vars, name := (a[1]!).asAtom, color := color }]
-  | some "q" => [{ id := (a[0]!).asNat, ns := .vars, name := (a[2]!).asAtom, color := color,
-                   enumQual := some (a[1]!).asAtom }]
-  | some "f" => { id := (a[0]!).asNat, ns := .funcs, name := (a[1]!).asAtom, color := none } ::
-      (a.drop 2).flatMap (usesOf none)
-  | some "add" => a.flatMap (usesOf color)
-  | some "ins" => (a.drop 2).flatMap (usesOf (optName a[1]!))
+  | some "v" => [.use { id := (a[0]!).asNat, ns := .vars, name := (a[1]!).asAtom }]
+  | some "q" => [.use { id := (a[0]!).asNat, ns := .vars, name := (a[2]!).asAtom, enumQual := some (a[1]!).asAtom }]
+  | some "f" => [.call { id := (a[0]!).asNat, ns := .funcs, name := (a[1]!).asAtom } ((a.drop 2).map argOf)]
+  | some "add" => a.flatMap exprsOf
+  | some "ins" => [.raw (a[0]!).asInt ((a.drop 2).map argOf)]
   | _ => []
+/-- one call argument is one expression -/
+partial def argOf (e : Sexp) : Expr :=
+  match exprsOf e with
+  | [x] => x
+  | xs => .group xs
+end
 
 def declVar (s : Sexp) : DeclVar :=
   let xs := s.items
-  { id := (xs[0]!).asNat, name := (xs[1]!).asAtom, init := (xs.drop 2).flatMap (usesOf none) }
+  { id := (xs[0]!).asNat, name := (xs[1]!).asAtom, init := (xs.drop 2).flatMap exprsOf }
+
+def useOf (e : Sexp) : Use :=
+  { id := (e.args[0]!).asNat, ns := .vars, name := (e.args[1]!).asAtom }
 
 def qualOf : String → FuncQual
   | "const" => .const
@@ -45,23 +61,27 @@ mutual
 partial def toStmt (s : Sexp) : List Stmt :=
   let a := s.args
   match s.head? with
-  | some "expr" => [.expr (usesOf none a[0]!)]
-  | some "assign" => [.expr (usesOf none a[0]! ++ usesOf none a[1]!)]
-  | some "ret" => [.expr (a.flatMap (usesOf none))]
+  | some "expr" => [.expr (exprsOf a[0]!)]
+  | some "assign" => [.expr (exprsOf a[0]! ++ exprsOf a[1]!)]
+  | some "ret" => [.expr (a.flatMap exprsOf)]
   | some "decl" => [.decl (a.map declVar)]
   | some "block" => [.block (toStmts a)]
   | some "loop" => Stmt.loop (toStmts a)
-  | some "while" => Stmt.while false (usesOf none a[0]!) (toStmts (a.drop 1))
-  | some "dowhile" => Stmt.while true (usesOf none a[0]!) (toStmts (a.drop 1))
-  | some "times" => Stmt.times (usesOf none a[0]!) (toStmts (a.drop 1))
+  | some "while" => Stmt.while false (exprsOf a[0]!) (toStmts (a.drop 1))
+  | some "dowhile" => Stmt.while true (exprsOf a[0]!) (toStmts (a.drop 1))
+  | some "times" => Stmt.times (exprsOf a[0]!) (toStmts (a.drop 1))
+  | some "timesc" => Stmt.timesClobber (useOf a[0]!) (exprsOf a[1]!) (toStmts (a.drop 2))
   | some "if" =>
     let branches := a.filter (fun b => b.head? != some "else")
     let els := a.find? (fun b => b.head? == some "else")
-    Stmt.condChain (branches.map fun b => (usesOf none (b.items[0]!), toStmts (b.items.drop 1)))
+    Stmt.condChain (branches.map fun b => (exprsOf (b.items[0]!), toStmts (b.items.drop 1)))
       (els.map fun b => toStmts b.args)
   | some "func" =>
     let ps := (a[3]!).items.map fun p => ((p.items[0]!).asNat, (p.items[1]!).asAtom)
     [.func (a[1]!).asNat (a[2]!).asAtom (qualOf (a[0]!).asAtom) ps (toStmts (a.drop 4))]
+  | some "funcdecl" =>
+    let ps := (a[3]!).items.map fun p => ((p.items[0]!).asNat, (p.items[1]!).asAtom)
+    [.funcDecl (a[1]!).asNat (a[2]!).asAtom (qualOf (a[0]!).asAtom) ps]
   | some "const" => [.const (a.map declVar)]
   | some "script" => [.script (toStmts a)]
   | _ => []
@@ -76,8 +96,20 @@ def section? (env : Sexp) (name : String) : List Sexp :=
 def triple (s : Sexp) : Lang × Name × Int :=
   ((s.items[0]!).asAtom, (s.items[1]!).asAtom, (s.items[2]!).asInt)
 
+def hasSection (env : Sexp) (name : String) : Bool := env.args.any fun s => s.head? == some name
+
+/-- the instruction signatures of a case: the `sigs` section, or the rule of the older case format -/
+def sigsOf (env : Sexp) : List (Lang × Int × List (Option Name)) :=
+  if hasSection env "sigs" then
+    (section? env "sigs").map fun s => ((s.items[0]!).asAtom, (s.items[1]!).asInt, (s.items.drop 2).map optName)
+  else
+    let langs := (section? env "langs").map (·.asAtom)
+    langs.flatMap (fun l => [(l, (900 : Int), [some "E1"]), (l, 901, [some "E2"]), (l, 902, [none])]) ++
+      ((section? env "ins").map triple).map fun a => (a.1, a.2.2, [none])
+
 def toGlobals (env : Sexp) : Globals :=
   { langs := (section? env "langs").map (·.asAtom),
+    insSigs := sigsOf env,
     regAliases := (section? env "reg").map triple,
     insAliases := (section? env "ins").map triple,
     enums := (section? env "enums").map (·.asAtom),
@@ -119,6 +151,7 @@ def entryOf : Event → Option (Nat × Sexp)
   | .redef id noun => some (2 * id + 1, .list [Sexp.nat id, .atom "redef", .atom (nounStr noun)])
   | .res id d => some (2 * id, .list [Sexp.nat id, defSexp d])
   | .err id e => some (2 * id, .list [Sexp.nat id, Sexp.app "err" [.str (errStr e)]])
+  | .skipped id => some (2 * id, .list [Sexp.nat id, .atom "unresolved-without-diagnostic"])
   | .panic _ => none
 
 def firstPanic : List Event → Option String
@@ -147,9 +180,54 @@ def resolveCase (env root : Sexp) : Sexp :=
   | some "blk" => render (resolveRibsBlock g (toStmts root.args))
   | _ => .atom "bad-case"
 
+/-! `(ribs ENV)`: the stacks `RibStacks::from_iter (Defs::initial_ribs)` builds, bottom first without the
+dummy root.  Mapfile ribs without entries are left out and neighbouring mapfile ribs are listed in
+the order of their language names (only the rib of the language of a use can answer, so their
+mutual order means nothing); names in a rib are sorted. -/
+
+def insertSorted {α} (lt : α → α → Bool) (x : α) : List α → List α
+  | [] => [x]
+  | y :: ys => if lt x y then x :: y :: ys else y :: insertSorted lt x ys
+
+def sortBy {α} (lt : α → α → Bool) (xs : List α) : List α := xs.foldl (fun acc x => insertSorted lt x acc) []
+
+def ribEntries (r : Rib) : List Sexp :=
+  let names := sortBy (fun a b => decide (a < b)) (r.defs.map (·.1)).eraseDups
+  names.filterMap fun n => (r.get n).map fun d => Sexp.list [.atom n, defSexp d]
+
+/-- `(kind word, language, entries)`; `none` for the dummy root and for empty mapfile ribs -/
+def ribView (r : Rib) : Option (String × String × List Sexp) :=
+  match r.kind with
+  | .mapfile l => if (ribEntries r).isEmpty then none else some ("mapfile", l, ribEntries r)
+  | .enumConsts => some ("enum-consts", "", ribEntries r)
+  | .builtinConsts => some ("builtin-consts", "", ribEntries r)
+  | .dummyRoot => none
+  | _ => some ("other", "", [])
+
+/-- neighbouring mapfile ribs in the order of their languages -/
+partial def sortRuns (xs : List (String × String × List Sexp)) : List (String × String × List Sexp) :=
+  match xs with
+  | [] => []
+  | x :: rest =>
+    if x.1 == "mapfile" then
+      let run := xs.takeWhile (fun y => y.1 == "mapfile")
+      let after := xs.dropWhile (fun y => y.1 == "mapfile")
+      sortBy (fun a b => decide (a.2.1 < b.2.1)) run ++ sortRuns after
+    else x :: sortRuns rest
+
+def stackSexp (ns : String) (stack : List Rib) : Sexp :=
+  Sexp.app ns ((sortRuns (stack.reverse.filterMap ribView)).map fun v =>
+    Sexp.app v.1 ((if v.1 == "mapfile" then [Sexp.atom v.2.1] else []) ++ v.2.2))
+
+def ribsCase (env : Sexp) : Sexp :=
+  let g := toGlobals env
+  let st := ribStacksFromIter g.initialRibsVec
+  Sexp.app "ribs" [stackSexp "vars" st.vars, stackSexp "funcs" st.funcs]
+
 def handle (case : Sexp) : Sexp :=
   match case.head? with
   | some "resolve" => resolveCase (case.args[0]!) (case.args[1]!)
+  | some "ribs" => ribsCase (case.args[0]!)
   | _ => .atom "bad-case"
 
 end TruthModel.Driver.C10
